@@ -155,7 +155,17 @@ struct ProbeSIS : public SIS {
         const std::string sk = std::to_string(k);
         vf::out_int("lstep" + sk, (long)step_number());          // the library's counter, before its increment
         const std::string cmd = g_case->word("cmd").at(k);       // none | prediction | state | correction | all
-        if (cmd != cur_cmd) {
+        if (cmd.find('+') != std::string::npos || cmd.find('-') != std::string::npos) {
+            // raw command history: "name+" / "name-" tokens separated by commas, issued in order; they stay in force
+            vf::Entry e("ParticleFilter::skip");
+            std::stringstream ss(cmd); std::string tok;
+            while (std::getline(ss, tok, ',')) {
+                if (tok.empty()) continue;
+                const bool on = tok.back() == '+';
+                if (!skip(tok.substr(0, tok.size() - 1), on)) vf::out_int("skip_refused" + sk, 1);
+            }
+        } else if (cmd != cur_cmd) {
+            // older replay files: the command of this step is issued and the previous one withdrawn
             vf::Entry e("ParticleFilter::skip");
             if (cur_cmd != "none") skip(cur_cmd, false);
             if (cmd != "none") skip(cmd, true);
